@@ -40,4 +40,7 @@ MUTANTS = [
     m("c14-writeback-only-without-exception", "R4", WB, '            if exception is None:\n                for i, _, rng_state in indexed_chain_outputs:\n                    per_chain_kwargs[i]["rng"].bit_generator.state = rng_state\n'),
     m("c14-writeback-skips-first", "R4", WB, '            for i, _, rng_state in indexed_chain_outputs[1:]:\n                per_chain_kwargs[i]["rng"].bit_generator.state = rng_state\n'),
     m("c14-twin-writeback-unpack-all", None, WB, '            for indexed_output in indexed_chain_outputs:\n                i, _, rng_state = indexed_output\n                per_chain_kwargs[i]["rng"].bit_generator.state = rng_state\n', twin=True),
+    {'id': 'c14-collate-reversed', 'prop': 'C14', 'rule': 'R6', 'edits': [{'file': 'samplers.py', 'old': '        final_states_stack.append(final_state)\n', 'new': '        final_states_stack.insert(0, final_state)\n'}]},
+    {'id': 'c14-writeback-to-mirrored-chain', 'prop': 'C14', 'rule': 'R6', 'edits': [{'file': 'samplers.py', 'old': '                per_chain_kwargs[i]["rng"].bit_generator.state = rng_state\n', 'new': '                per_chain_kwargs[n_chain - 1 - i]["rng"].bit_generator.state = rng_state\n'}], 'key': 'stream-foreign'},
+    {'id': 'c14-twin-sequential-index-loop', 'prop': 'C14', 'rule': None, 'edits': [{'file': 'samplers.py', 'old': '    for chain_index, (chain_iterator, chain_kwargs) in enumerate(\n        zip(chain_iterators, per_chain_kwargs, strict=True),\n    ):', 'new': '    pairs = list(zip(chain_iterators, per_chain_kwargs, strict=True))\n    for chain_index in range(len(pairs)):\n        chain_iterator, chain_kwargs = pairs[chain_index]'}], 'twin': True},
 ]
